@@ -125,7 +125,17 @@ func (c *c01) startReader(start int64, committed bool, latest bool) {
 			m, off, ts, ep, err := r.ReadMessage(ctx, buf)
 			if err != nil {
 				if ctx.Err() == nil && !log.IsClosed() {
-					h.fail("C01/live", "C01/live/error", "live reader %d (start=%d committed=%v) ended with %q after offset %d although it was not cancelled and the log is open", lr.id, start, committed, err, lr.last)
+					dbg := ""
+					for _, sg := range log.segments {
+						dbg += fmt.Sprintf("[base=%d closed=%v replaced=%v deleted=%v]", sg.BaseOffset, sg.closed, sg.replaced, sg.deleted)
+					}
+					if cr, ok := r.ctxReader.(*committedReader); ok && cr.seg != nil {
+						dbg += fmt.Sprintf(" reader in segment base=%d closed=%v replaced=%v pos=%d, hw segment base=%d, reader hw=%d", cr.seg.BaseOffset, cr.seg.closed, cr.seg.replaced, cr.pos, cr.hwSeg.BaseOffset, cr.hw)
+					}
+					if ur, ok := r.ctxReader.(*uncommittedReader); ok && ur.seg != nil {
+						dbg += fmt.Sprintf(" reader in segment base=%d closed=%v replaced=%v pos=%d", ur.seg.BaseOffset, ur.seg.closed, ur.seg.replaced, ur.pos)
+					}
+					h.fail("C01/live", "C01/live/error", "live reader %d (start=%d committed=%v) ended with %q after offset %d although it was not cancelled and the log is open; hw=%d; segment list %s", lr.id, start, committed, err, lr.last, h.hw, dbg)
 				}
 				return
 			}
